@@ -12,6 +12,7 @@ import (
 
 	"verif/harness/codec"
 	"verif/harness/gen"
+	"verif/harness/model"
 	"verif/harness/mon"
 	"verif/harness/run"
 	"verif/harness/val"
@@ -30,8 +31,11 @@ type c19Pair struct {
 }
 
 type c19Result struct {
-	err  string
-	diff string
+	err   string
+	diff  string
+	pair  int
+	codec int
+	mine  []byte
 }
 
 func c19Round(c *run.C) {
@@ -44,24 +48,20 @@ func c19Round(c *run.C) {
 	// shared inputs: (type, value) pairs with types never seen before in this
 	// process (fresh reflect.StructOf types) plus static zoo types
 	const K = 5
+	// NOTE: nothing of the library may touch these types before the barrier
+	// opens — a process-global cache filled by a sequential warm-up would turn
+	// every concurrent first use into a read-only cached use.  The sequential
+	// reference results are therefore computed AFTER the concurrent phase.
 	pairs := make([]*c19Pair, 0, K)
 	for len(pairs) < K {
 		t, v := genTypeValue(r, gen.GoTypeOpts{MaxDepth: 3, InlineStructOnly: true, Extra: zoo.Supported}, gen.GoValueOpts{ZeroDropped: true, MaxLen: 3})
 		if hasBigUint(v, 0) {
 			continue // ubjson known finding of C11
 		}
-		p := &c19Pair{t: t, v: v}
-		okp := true
-		for ci, cd := range codec.All {
-			var w mon.CountingWriter
-			if err := gotype.Fold(v.Interface(), cd.NewVisitor(&w, codec.JSONOpts{})); err != nil {
-				okp = false
-			}
-			p.bytes[ci] = w.Buf
+		if _, err := model.Fold(v, nil); err != nil {
+			continue
 		}
-		if okp {
-			pairs = append(pairs, p)
-		}
+		pairs = append(pairs, &c19Pair{t: t, v: v})
 	}
 	var desc []string
 	for _, p := range pairs {
@@ -140,13 +140,14 @@ func c19Round(c *run.C) {
 							return
 						}
 						mine := append([]byte{}, w.Buf...)
-						// parse the SHARED sequential bytes -> own unfolder
+						res.pair, res.codec, res.mine = pi, ci, mine
+						// parse own bytes -> own unfolder (target type shared, first use compiles its unfolder)
 						target := reflect.New(p.t)
 						if err := u.SetTarget(target.Interface()); err != nil {
 							res.err = "SetTarget: " + err.Error()
 							return
 						}
-						if err := cd.Parse(p.bytes[ci], u); err != nil {
+						if err := cd.Parse(mine, u); err != nil {
 							res.err = "parse+unfold: " + err.Error()
 							return
 						}
@@ -154,23 +155,15 @@ func c19Round(c *run.C) {
 							res.diff = "unfolded value differs from the shared original: " + d
 							return
 						}
-						// own encoding must denote the same value as the sequential one
-						ra, rb := refDecode(cd.Name, mine), refDecode(cd.Name, p.bytes[ci])
-						if ra.Status != 0 || rb.Status != 0 || len(ra.Values) != 1 || len(rb.Values) != 1 {
-							res.diff = fmt.Sprintf("encoding not readable: %v %v", ra.Status, rb.Status)
-							return
-						}
-						x, y := ra.Values[0], rb.Values[0]
-						markUnordered(&x)
-						markUnordered(&y)
-						if d := val.Equal(y, x, val.Mode(cd.Name)); d != "" {
-							res.diff = "own encoding differs from the sequential encoding: " + d
+						rb := refDecode(cd.Name, mine)
+						if rb.Status != 0 || len(rb.Values) != 1 {
+							res.diff = fmt.Sprintf("own encoding not readable: %v", rb.Status)
 							return
 						}
 						// transcode the shared bytes into another format with own parser+encoder
 						dst := codec.All[(g+1)%3]
 						var tw mon.CountingWriter
-						if err := cd.Parse(p.bytes[ci], dst.NewVisitor(&tw, codec.JSONOpts{IgnoreInvalidFloat: true})); err != nil {
+						if err := cd.Parse(mine, dst.NewVisitor(&tw, codec.JSONOpts{IgnoreInvalidFloat: true})); err != nil {
 							res.err = "transcode: " + err.Error()
 							return
 						}
@@ -196,9 +189,34 @@ func c19Round(c *run.C) {
 	start.Done()
 	done.Wait()
 
+	// sequential reference, computed only now (see the note above)
+	for _, p := range pairs {
+		for ci, cd := range codec.All {
+			var w mon.CountingWriter
+			if err := gotype.Fold(p.v.Interface(), cd.NewVisitor(&w, codec.JSONOpts{})); err != nil {
+				c.Violationf("concurrent-error", "sequential:fold", "sequential fold failed: %v\ntype=%s", err, p.t)
+				return
+			}
+			p.bytes[ci] = w.Buf
+		}
+	}
 	// verdicts (main goroutine only)
 	for g := 0; g < G; g++ {
 		for i, res := range results[g] {
+			if res.err == "" && res.diff == "" {
+				cdn := codec.All[res.codec].Name
+				ra, rb := refDecode(cdn, res.mine), refDecode(cdn, pairs[res.pair].bytes[res.codec])
+				if ra.Status != 0 || rb.Status != 0 || len(ra.Values) != 1 || len(rb.Values) != 1 {
+					res.diff = fmt.Sprintf("encoding not readable: %v %v", ra.Status, rb.Status)
+				} else {
+					x, y := ra.Values[0], rb.Values[0]
+					markUnordered(&x)
+					markUnordered(&y)
+					if d := val.Equal(y, x, val.Mode(cdn)); d != "" {
+						res.diff = "own encoding differs from the sequential encoding: " + d
+					}
+				}
+			}
 			if res.err != "" {
 				c.Violationf("concurrent-error", "concurrent:"+errClass(fmt.Errorf("%s", res.err)), "goroutine %d of %d, pipeline %d failed although it succeeds sequentially: %s", g, G, i, res.err)
 				return
